@@ -24,8 +24,6 @@ def check(rep):
         LR.validate_engine(ctx)
     rule_id_charset(ctx)
     LR.rule_string_delimiters(ctx, rid="C13.STRING-DELIMITERS")
-    from . import evalrules as ER2
-    ER2.rule_text_unmodified(ctx, rid="C13.TEXT-UNMODIFIED")
     PR.rule_compiles(ctx, rid="C13.SHAPE-COMPILES", strict=False)
     PR.rule_renderers(ctx, rid="C13.TAINT", kinds=("str",), extra_safe=("json",))
     PR.rule_string_surface(ctx)
